@@ -10,6 +10,9 @@ mod parse;
 mod print;
 mod unordered;
 mod object;
+mod nav;
+mod compare;
+mod c03;
 
 use common::Args;
 
@@ -28,12 +31,19 @@ fn main() {
         "c08" => (print::generate_c08, print::eval_c08),
         "c15" => (unordered::generate, unordered::eval),
         "c06" => (object::generate, object::eval),
+        "c11" => (nav::generate, nav::eval),
+        "c14" => (compare::generate, compare::eval),
+        "c03" => (c03::generate, c03::eval),
         other => {
             eprintln!("unknown family {other}");
             std::process::exit(2);
         }
     };
     match args.mode.as_str() {
+        "deepchild" => {
+            let e = &args.extra;
+            c03::deep_child(&e[0], e[1].parse().unwrap(), e[2].parse().unwrap(), &e[3]);
+        }
         "gen" => {
             let mut out = common::Out::new(&args, eval);
             gen(&args, &mut out);
